@@ -18,6 +18,8 @@ import (
 	"github.com/miekg/dns"
 	"github.com/semihalev/sdns/internal/vfgen"
 	"github.com/semihalev/sdns/internal/vfstat"
+	"github.com/semihalev/sdns/middleware"
+	"github.com/semihalev/sdns/middleware/cache"
 	"github.com/semihalev/sdns/internal/vfworld"
 	"pgregory.net/rapid"
 )
@@ -37,10 +39,12 @@ type vfC13WCase struct {
 	Steps []vfC13WStep
 	W     *vfworld.World
 	QMin  int
+	NoVal bool // dnssec = "off": the resolver walks with CD set on its own behalf, whatever the client sent
 }
 
 func vfC13WGen(rt *rapid.T) *vfC13WCase {
 	c := &vfC13WCase{Fault: map[string]string{}, Slow: map[string]time.Duration{}, QMin: rapid.SampledFrom([]int{0, 0, 5}).Draw(rt, "qmin")}
+	c.NoVal = rapid.IntRange(0, 3).Draw(rt, "novalidation") == 0
 	c.W = vfworld.Build([]vfworld.ZoneSpec{
 		{Apex: ".", Signed: true}, {Apex: "test.", Signed: true},
 		{Apex: "dead.test.", Servers: 2, Owners: map[string][]uint16{"a.dead.test.": {dns.TypeA}, "b.dead.test.": {dns.TypeA}}},
@@ -96,8 +100,13 @@ func vfC13WRun(t *testing.T, dir string, c *vfC13WCase) (violation string, trace
 		time.Sleep(time.Until(vfworld.Epoch))
 		cfg := vfResolverConfig(dir, c.W)
 		cfg.QnameMinLevel = c.QMin
+		if c.NoVal {
+			cfg.DNSSEC = "off"
+		}
 		rw := vfStartResolver(cfg, c.W)
 		defer rw.Close()
+		store, _ := middleware.Get("cache").(*cache.Cache)
+		asked := map[string]map[bool]bool{} // client question name -> CD values it was asked with
 		healed := false
 		var healedAt time.Duration
 		rw.Net.Script = func(p vfworld.Packet, n int, req, resp *dns.Msg, info vfworld.Info) vfworld.Action {
@@ -149,6 +158,24 @@ func vfC13WRun(t *testing.T, dir string, c *vfC13WCase) (violation string, trace
 			if rep.Msg == nil {
 				fail("step %d: %s got no reply", i, st.Name)
 				continue
+			}
+			// a question failure is filed under the question that failed - its CD value included: no entry may name a
+			// client's question with a CD value no client ever asked it with
+			lname := strings.ToLower(st.Name)
+			if asked[lname] == nil {
+				asked[lname] = map[bool]bool{}
+			}
+			asked[lname][st.CD] = true
+			if store != nil {
+				for _, f := range store.VerifStore().VerifFailures() {
+					if f.Zone || f.Qtype != dns.TypeA {
+						continue
+					}
+					if cds, ok := asked[strings.ToLower(f.Name)]; ok && !cds[f.CD] {
+						fail("step %d: after %s (cd=%v) the failure cache holds a question failure for %s with CD=%v, a CD value this question was never asked with (validation off: %v)", i, st.Name, st.CD, f.Name, f.CD, c.NoVal)
+					}
+					stats["question-failure-entries-judged"]++
+				}
 			}
 			m := rep.Msg
 			z := zoneOf(st.Name)
@@ -207,7 +234,7 @@ func TestVerifC13World(t *testing.T) {
 		c := vfC13WGen(rt)
 		v, trace, stats := vfC13WRun(t, dir, c)
 		if v != "" {
-			rt.Fatalf("%s\n  faults=%v qmin=%d\n  history:\n    %s", v, c.Fault, c.QMin, strings.Join(trace, "\n    "))
+			rt.Fatalf("%s\n  faults=%v qmin=%d validation-off=%v\n  history:\n    %s", v, c.Fault, c.QMin, c.NoVal, strings.Join(trace, "\n    "))
 		}
 		vfstat.Eval(U, 1)
 		for k, n := range stats {
